@@ -84,6 +84,26 @@ NEW_NAMES = {
     "breakpoint": (3, 7),
     "print flush": (3, 3),
 }
+NEW_KEYWORDS = {
+    # callable (by attribute / function name) -> keyword -> first version
+    "ArgumentParser": {"allow_abbrev": (3, 5), "exit_on_error": (3, 9)},
+    "add_argument": {},
+    "split": {"maxsplit": (3, 0), "sep": (3, 0)},
+    "rsplit": {"maxsplit": (3, 0), "sep": (3, 0)},
+    "print": {"flush": (3, 3)},
+    "open": {"encoding": (3, 0), "newline": (3, 0), "errors": (3, 0)},
+    "sorted": {},
+    "dumps": {},
+    "dump": {},
+    "round": {"ndigits": (3, 0)},
+    "int": {"base": (3, 0)},
+    "compile": {},
+    "max": {"default": (3, 4)},
+    "min": {"default": (3, 4)},
+    "sum": {"start": (3, 8)},
+    "run": {"capture_output": (3, 7), "text": (3, 7)},
+    "zip": {"strict": (3, 10)},
+}
 PY3_ONLY_BUILTINS = {"breakpoint": (3, 7), "aiter": (3, 10), "anext": (3, 10), "ascii": (3, 0), "exec": (3, 0)}
 PY2_ONLY_BUILTINS = ("unicode", "basestring", "xrange", "long", "unichr", "reduce", "cmp", "execfile", "file", "raw_input")
 
